@@ -54,7 +54,7 @@ Definition C02_call_ok (c : ccfg) (k : cache) (parent : json) (cl : call) : bool
           end
       (* server-side apply: the applied object carries our controller reference, so the API
          server refuses it on an object somebody else controls (one controller reference) *)
-      | VPatchApply => has_controller_ref_of (q_body q) (get_uid parent)
+      | VPatchApply => has_controller_ref_of (q_body q) (get_uid parent) || negb (metadata_is_obj (q_body q))
       (* the last-applied annotation is taken off an observed child before it is applied *)
       | VPatchJson =>
           match find_cached c k q with
